@@ -813,6 +813,7 @@ class Dict(dict, base.Symbolic, pg_typing.CustomTyping):
         super().clear()
         super().update(items)
         self._value_spec = value_spec
+        self._invalidate_content_caches()
         raise
     # The removed values are detached only once the clear has succeeded.
     for value in items.values():
